@@ -143,6 +143,13 @@ func (fr *Frame) eval(e *Expr, env *Env, st *State, old *State) *Val {
 				return v
 			}
 		}
+		if av, ok := fr.nameAddrs[e.name]; ok {
+			if pv, ok := fr.vals[av]; ok && pv.K == vTerm {
+				a := u.addrOfPtr(pv)
+				el := pv.Ty.Underlying().(*types.Pointer).Elem()
+				return term(u.loadAddr(st, a), el)
+			}
+		}
 		if k, ok := kindNames[strings.TrimPrefix(e.name, "Kind")]; ok && strings.HasPrefix(e.name, "Kind") {
 			return term(fmt.Sprintf("%d", k), types.Typ[types.Int])
 		}
